@@ -21,7 +21,7 @@ PLAN = {
     "min_obligations": {"quick": 18, "thorough": 18},
     "assumptions": [
         "thread-locality of LOCAL_RECORDER (a local recorder is never visible to another thread) is the language's contract for thread_local!; Kani executes a single thread",
-        "panic = verification failure; unwinding through a with_local_recorder closure / guard scope is not modelled, so restoration on the panic path is not decided",
+        "panic = verification failure under Kani; unwinding is not executed. The panic-exit clause of with_local_recorder is decided structurally (scope.verus.rs: the closure is called while the guard is alive and armed, R44 rewrites `f()` into a call that borrows the guard variable `_local`) together with the Drop contract under a stubbed thread::panicking(); that Rust runs the destructors of live locals during unwinding is the language's contract",
         "the borrow that installs a recorder is taken to end when its LocalRecorderGuard is dropped or mem::forget-ed, or when with_local_recorder returns (the shortest extent safe Rust allows)",
         "history harnesses are bounded: <= 3 installs, <= 4 steps (quick) / 5 steps (thorough); not counted as proved",
         "macro harnesses use short literal / selected-constant strings; parametricity in string contents is assumed (symbolic String building is beyond Kani's reach)",
@@ -82,5 +82,12 @@ PLAN = {
     "witnesses": [
         {"match": r"c01_guard_fifo_drop", "src": "witness_fifo_drop.rs", "crate": "metrics", "file": "metrics/src/recorder/mod.rs"},
         {"match": r"c01_guard_forget", "src": "witness_forget.rs", "crate": "metrics", "file": "metrics/src/recorder/mod.rs"},
+        # the panic-exit clause of with_local_recorder: run when the structural contract (scope.verus.rs) fails or cannot be extracted
+        {"match": r"fn with_local_recorder", "src": "witness_panic_scope.rs", "crate": "metrics", "file": "metrics/src/recorder/mod.rs"},
+    ],
+    # structural contract (Verus, on the extracted real text): the closure of with_local_recorder runs while the guard created by
+    # LocalRecorderGuard::new is alive and armed -- the destructor-based restore is what also covers the panic path, which Kani cannot execute
+    "verus": [
+        {"template": "scope.verus.rs", "tier": "quick", "rlimit": 20, "min_functions": 1},
     ],
 }
